@@ -418,43 +418,41 @@ Proof.
       by (intros i Hi; exact (i_bound _ _ Hinv s Hs i Hi)).
   assert (forall f, exists l1 l2, ec_parts st = l1 ++ s :: l2 /\ update p f (ec_parts st) = l1 ++ f s :: l2) as Hsplit
       by (intros f; eapply update_split; eauto).
+  assert (forall r' b l1 l2, (forall j, In j r' -> In j (ps_rest s)) ->
+            ecinv (ec_taken st) (l1 ++ s :: l2) ->
+            ecinv (ec_taken st) (l1 ++ mkPS r' None None b :: l2)) as Hnone.
+  { intros r' b l1 l2 Hr Hi. eapply ecinv_update; [exact Hi|apply incl_refl|..]; rewrite ?own_none; simpl.
+    - constructor.
+    - intros j [].
+    - intros j Hj. discriminate.
+    - intros j [Hj|[]]. apply Hb. left. apply Hr. exact Hj. }
   destruct (ps_hold s) as [i|] eqn:Eh.
   - assert (own s = [i]) as Hown by (unfold own; rewrite Ed, Eh; reflexivity).
-    assert (forall b l1 l2, ecinv (ec_taken st) (l1 ++ s :: l2) ->
-              ecinv (ec_taken st) (l1 ++ mkPS (ps_rest s) None None b :: l2)) as Hfail.
-    { intros b l1 l2 Hi. eapply ecinv_update; [exact Hi|apply incl_refl|..]; rewrite ?own_done, ?own_hold, ?own_none; simpl.
-      - constructor.
-      - intros j [].
-      - intros j Hj. discriminate.
-      - intros j [Hj|[]]. apply Hb. left. exact Hj. }
     destruct (ack (nth i nodes 0)) eqn:Ea; [|destruct (ec_stop st)]; simpl.
     + destruct (Hsplit (fun s => mkPS (ps_rest s) None (Some i) false)) as (l1 & l2 & E1 & ->).
-      rewrite E1 in Hinv. eapply ecinv_update; [exact Hinv|apply incl_refl|..]; rewrite ?own_done, ?own_hold, ?own_none; simpl.
+      rewrite E1 in Hinv. eapply ecinv_update; [exact Hinv|apply incl_refl|..]; rewrite ?own_done; simpl.
       * constructor; [intros []|constructor].
       * intros j [<-|[]]. left. rewrite Hown. left. reflexivity.
       * intros j Hj. inversion Hj; subst. exact Ea.
       * intros j [Hj|[<-|[]]]; apply Hb; [left; exact Hj|right; rewrite Hown; left; reflexivity].
     + destruct (Hsplit (fun s => mkPS (ps_rest s) None None true)) as (l1 & l2 & E1 & ->).
-      rewrite E1 in Hinv. apply Hfail. exact Hinv.
+      rewrite E1 in Hinv. apply Hnone; auto.
     + destruct (Hsplit (fun s => mkPS (ps_rest s) None None (Nat.ltb (length nodes - S (ec_failed st)) data)))
         as (l1 & l2 & E1 & ->).
-      rewrite E1 in Hinv. apply Hfail. exact Hinv.
+      rewrite E1 in Hinv. apply Hnone; auto.
   - assert (own s = []) as Hown by (unfold own; rewrite Ed, Eh; reflexivity).
     destruct (ps_rest s) as [|i r] eqn:Er; simpl.
     + destruct (Hsplit (fun _ => mkPS [] None None true)) as (l1 & l2 & E1 & ->).
-      rewrite E1 in Hinv. eapply ecinv_update; [exact Hinv|apply incl_refl|..]; rewrite ?own_done, ?own_hold, ?own_none; simpl;
-        try constructor; try (intros j []); try (intros j Hj; discriminate); try (intros j [[]|[]]).
+      rewrite E1 in Hinv. apply Hnone; auto.
     + destruct (ec_stop st || memb i (ec_taken st)) eqn:Ec; simpl.
       * destruct (Hsplit (fun _ => mkPS r None None false)) as (l1 & l2 & E1 & ->).
-        rewrite E1 in Hinv. eapply ecinv_update; [exact Hinv|apply incl_refl|..]; rewrite ?own_done, ?own_hold, ?own_none; simpl;
-          try constructor; try (intros j []); try (intros j Hj; discriminate).
-        intros j [Hj|[]]. apply Hb. left. right. exact Hj.
+        rewrite E1 in Hinv. apply Hnone; auto. intros j Hj. right. exact Hj.
       * apply orb_false_iff in Ec. destruct Ec as [_ Ec].
         assert (~ In i (ec_taken st)) as Hni.
         { intro Hi. unfold memb in Ec. rewrite <- not_true_iff_false in Ec. apply Ec.
           apply existsb_exists. exists i. split; auto. apply Nat.eqb_refl. }
         destruct (Hsplit (fun _ => mkPS r (Some i) None false)) as (l1 & l2 & E1 & ->).
-        rewrite E1 in Hinv. eapply ecinv_update; [exact Hinv|..]; rewrite ?own_done, ?own_hold, ?own_none; simpl.
+        rewrite E1 in Hinv. eapply ecinv_update; [exact Hinv|..]; rewrite ?own_hold; simpl.
         -- intros j Hj. right. exact Hj.
         -- constructor; [intros []|constructor].
         -- intros j [<-|[]]. right. split; [exact Hni|left; reflexivity].
@@ -527,7 +525,7 @@ Theorem ec_safe ack nodes data total sched :
                /\ forall i, In i idxs -> i < length nodes /\ ack (nth i nodes 0) = true.
 Proof.
   intros st Hd. subst st.
-  pose proof (ec_run_inv ack nodes data sched _ (ec_init_inv ack nodes total)) as Hinv.
+  pose proof (ec_run_inv ack nodes data sched (ec_init total (length nodes)) (ec_init_inv ack nodes total)) as Hinv.
   set (st := ec_run ack nodes data sched (ec_init total (length nodes))) in *.
   unfold ec_all_done in Hd. destruct (all_done_placement _ Hd) as [E1 E2].
   exists (owned (ec_parts st)). split; [exact E1|]. split.
@@ -551,4 +549,50 @@ Proof.
   assert (j = i).
   { apply (proj1 (NoDup_nth nodes 0) Hn); auto. }
   subst. tauto.
+Qed.
+
+(* ---- saveObject level ------------------------------------------------------------------ *)
+Lemma good_empty ack : good ack (mkRP [] []).
+Proof. intros n H. discriminate. Qed.
+
+Definition max_of (ini : option initial) : nat := match ini with Some i => i_max i | None => 0 end.
+
+(* no MaxReplicas (no initial policy, or an initial policy with limits only):
+   success = every enabled rule has its number (R, or its limit) of distinct
+   acknowledging nodes of its own list, all of which were sent the object *)
+Theorem put_rep_ok ack local lists rep ini st p acc :
+  max_of ini = 0 ->
+  save_rep ack local lists rep ini = (st, p, acc) ->
+  Forall (fun r => NoDup (fst r)) (ordered_rules local lists rep ini) ->
+  st = Ok ->
+  Forall (fun r => rule_ok ack p r (snd r)) (ordered_rules local lists rep ini).
+Proof.
+  unfold save_rep. fold (max_of ini). intros -> H Hnd Hok.
+  destruct (rep_loop_nomax ack _ _ _ _ _ _ _ H Hnd (good_empty ack)) as (_ & _ & F). auto.
+Qed.
+
+(* every rule with a positive count is processed when there is no initial policy *)
+Lemma ordered_rules_all local lists rep i :
+  i < length rep -> 0 < nth i rep 0 ->
+  In (nth i lists [], nth i rep 0) (ordered_rules local lists rep None).
+Proof.
+  intros Hi Hp. unfold ordered_rules. apply in_map_iff. exists i. split; auto.
+  apply filter_In. split; [apply in_seq; lia|]. apply Nat.ltb_lt. exact Hp.
+Qed.
+
+(* MaxReplicas > 0: limits never exceeded, total = min(MaxReplicas, sum of limits) *)
+Theorem put_initial_ok ack local lists rep ini st p acc :
+  0 < max_of ini ->
+  save_rep ack local lists rep ini = (st, p, acc) ->
+  Forall (fun r => NoDup (fst r)) (ordered_rules local lists rep ini) ->
+  length acc <= length (ordered_rules local lists rep ini)
+  /\ Forall2 (within ack p) (firstn (length acc) (ordered_rules local lists rep ini)) acc
+  /\ fold_right plus 0 acc <= max_of ini
+  /\ (st = Ok -> fold_right plus 0 acc
+                 = Nat.min (max_of ini) (sum_limits (ordered_rules local lists rep ini))).
+Proof.
+  unfold save_rep. fold (max_of ini). intros Hmx H Hnd.
+  destruct (rep_loop_max ack _ Hmx _ _ _ _ _ _ _ H Hnd (good_empty ack) Hmx)
+    as (_ & _ & ss & E & A2 & A3 & A4 & A5).
+  simpl in E. subst acc. auto.
 Qed.
